@@ -86,6 +86,10 @@ def parse_prints(prints, out=""):
             c["id"] = "%s:%s:%s" % (c["mesh"], c["route"], ",".join("%s=%s" % kv for kv in sorted(c["d"].items())))
             if c.get("first", "conn") != "conn":
                 c["id"] += "|first=" + c["first"]
+            c["between"] = _rec(p[1]["between"]) if "between" in p[1] else {"kind": "none"}
+            if c["between"].get("kind") == "sweep":
+                b = c["between"]
+                c["id"] += "|bw=%d.%d.%s" % (b["start"], b["step"], "R" if b["reverse"] else "F")
             cases.append(c)
     cases.sort(key=lambda c: c["id"])
     return meshes, cases
@@ -682,6 +686,51 @@ def _range_ok(a, lo, hi):
     return bool(np.all(np.isfinite(a)) and a.min() >= lo and a.max() <= hi) if a.size else True
 
 
+INVENTORY = {"dims", "sizes", "coordinates", "connectivity", "descriptors", "parsed_attrs", "attrs"}
+SWEEP_METHODS = ("compute_face_areas",)  # public methods that compute what a source may ship
+
+
+def grid_attributes():
+    """Every public property of the Grid class, by introspection (b-c09's list when available): a property added
+    later is read in between automatically."""
+    try:
+        from . import x_c09
+
+        return list(x_c09.grid_attributes())
+    except Exception:
+        ux = hux.import_ux()
+        return [n for n, v in vars(ux.Grid).items() if isinstance(v, property) and not n.startswith("_") and n not in INVENTORY]
+
+
+def sweep(g, between):
+    """Read the Grid's other public attributes in the order the case prescribes (Dialects!Sweeps).  What they
+    return - or raise - is other checks' business; here they are only the history before the carried values
+    are read again."""
+    import math as _m
+
+    attrs = grid_attributes()
+    n = len(attrs)
+    step = int(between["step"])
+    while _m.gcd(step, n) != 1:
+        step += 1
+    seq = [attrs[(int(between["start"]) + j * step) % n] for j in range(n)]
+    if between["reverse"]:
+        seq.reverse()
+    for a in seq:
+        try:
+            v = getattr(g, a)
+            if hasattr(v, "values"):
+                v.values
+        except Exception:
+            pass
+    for m in SWEEP_METHODS:
+        try:
+            getattr(g, m)()
+        except Exception:
+            pass
+    return seq
+
+
 def read_in_order(g, order):
     """Read the Grid's attributes in the order the plan prescribes; values are taken when read."""
     seen = {}
@@ -797,6 +846,11 @@ def run_case(arg):
         rec["how"] = how
         orders = case.get("orders") or [["conn", "lon", "lat", "xyz"]] * len(plan)
         rec["got"] = project(g, case, mesh, orders[0])
+        between = case.get("between") or {"kind": "none"}
+        if between.get("kind") == "sweep":
+            sweep(g, between)
+            rec["got_after"] = project(g, case, mesh, orders[0])
+            rec["later_after"] = []
         kept, later = [], []
         if fp0 is not None:
             kept.append(fingerprint(inp) == fp0)
@@ -805,6 +859,9 @@ def run_case(arg):
             try:
                 g2, _ = decode(opt)
                 later.append(project_core(g2, case, mesh, orders[step])[0])
+                if between.get("kind") == "sweep" and case["modes"][step] == "faces" and step == 1:
+                    sweep(g2, between)
+                    rec["later_after"].append(project(g2, case, mesh, orders[step]))
             except Exception as e:
                 rec["error_later"] = "decoding #%d (%s) of the same input: %s: %s%s" % (len(later) + 2, opt, type(e).__name__, str(e)[:140], _where(e))
                 break
